@@ -169,24 +169,27 @@ def context_obligations(rep):
             rep.proved(oid, 'pysym', f'{"pushed (top-level conjunct)" if pushed else "not pushed"}: fetch where = `{w}`', function=fn, clause=clause)
 
 
-# ------------------------------------------------------------------ the OR guard of process_table (pysym) and its producer
-def or_guard_obligations(rep):
-    """Sufficient-condition lemmas behind the context analysis: (a) check_query_conditions records the operator of EVERY BinaryOperation the walker
-    visits; (b) process_table uses the per-table WHERE conditions only if no recorded operator is 'or', and combines what it uses with AND only.
-    A failure of (a)/(b) alone is 'contract needs review' (undecided): the data-level evidence is the path analysis below."""
-    from mindsdb_sql.parser.ast import Identifier, BinaryOperation, BetweenOperation
-    from vlib.pysym.values import mk_str
+# ------------------------------------------------------------------ where per-table conditions come from and how they are combined (pysym)
+def conjunct_obligations(rep):
+    """Sufficient-condition lemmas behind the path analysis (unbounded in the depth and shape of WHERE):
+      conjuncts  check_query_conditions hands check_node_condition only nodes reached from WHERE through AND nodes (top-level conjuncts)
+      combine    process_table builds fetch.where as the AND of (a subset of the table's collected conditions, the join filters)
+    Together: every pushed filter is a top-level conjunct of WHERE, hence implied by it. They describe one sufficient way to satisfy the property:
+    if an implementation stops satisfying them the verdict is NOT-ESTABLISHED (soft) and the decision rests on C08.filter.path.* up to its depth."""
+    from mindsdb_sql.parser.ast import Identifier, BinaryOperation, BetweenOperation, UnaryOperation, Function, Constant
+    from mindsdb_sql.planner.plan_join import PlanJoinTablesQuery
     fn = f'{PJ}:PlanJoinTablesQuery.process_table'
 
     def make_args(ex):
         selfo = SymObj(None, 'self', prov='param')
         selfo.known_not_none = True
-        op1, op2 = mk_str('op1'), mk_str('op2')
+        op1, op2 = pysym.mk_str('op1'), pysym.mk_str('op2')
         ctx = {'binary_ops': ['and', op1, op2], 'use_limit': False}
         selfo.fields['query_context'] = ex.param_container(ctx)
         c1, c2, j1 = (SymObj(None, n, prov='param') for n in ('cond1', 'cond2', 'joinfilter'))
         for c in (c1, c2, j1):
             c.known_not_none = True
+            c.fields['_under_or'] = pysym.mk_bool(f'{c.label}._under_or') if hasattr(pysym, 'mk_bool') else False
         item = SymObj(None, 'item', prov='param')
         item.known_not_none = True
         tbl = SymObj({Identifier}, 'table', prov='param')
@@ -205,7 +208,7 @@ def or_guard_obligations(rep):
         selfo.fields['tables_fetch_step'] = ex.param_container({})
         q = SymObj(None, 'query_in', prov='param')
         q.known_not_none = True
-        ex.path_state.update(captured=captured, conds=(c1, c2, j1), ops=(op1, op2))
+        ex.path_state.update(captured=captured, conds=(c1, c2, j1))
         return [selfo, item, q], {}
 
     def post(ex, o):
@@ -215,7 +218,6 @@ def or_guard_obligations(rep):
         if len(cap) != 1:
             return f'{len(cap)} fetch queries built'
         c1, c2, j1 = o.state['conds']
-        op1, op2 = o.state['ops']
         leaves = []
 
         def walk(w):
@@ -226,7 +228,7 @@ def or_guard_obligations(rep):
                 return None
             f = getattr(w, 'fields', {}) or {}
             if f.get('op') != 'and' or not isinstance(f.get('args'), list):
-                return f'conditions are combined by {f.get("op")!r}'
+                return f'the fetch filter contains something that is neither a collected condition nor a join filter, or combines them by {f.get("op")!r}'
             for a in f['args']:
                 r = walk(a)
                 if r:
@@ -237,72 +239,84 @@ def or_guard_obligations(rep):
             return r
         if j1 not in leaves:
             return 'the join filter is dropped'
-        if c1 in leaves or c2 in leaves:
-            ok, _ = ex.valid(z3.And(op1.t != z3.StringVal('or'), op2.t != z3.StringVal('or')), pc=o.pc)
-            if not ok:
-                return "WHERE conditions of the table are pushed although an 'or' operator was recorded for the query"
         return None
     v = pysym.verify(PJ, 'PlanJoinTablesQuery.process_table', make_args, post)
-    oid = 'C08.filter.or-guard.process_table'
-    clause = "ensures fetch.where = AND of (conditions of the table, join filters); conditions of the table are used only if no recorded binary operator is 'or'"
+    oid = 'C08.filter.combine'
+    clause = 'ensures fetch.where is the AND of (a subset of item.conditions, all join filters); nothing else enters the fetch filter'
     if v.status == PROVED:
         rep.proved(oid, 'pysym', v.detail, function=fn, clause=clause, seconds=v.seconds)
     else:
-        rep.undecided(oid, 'pysym', f'sufficient condition no longer established ({v.detail[:160]}): decided by the path analysis C08.filter.path.* only up to its depth', function=fn, clause=clause)
-    # (a) the producer: every visited BinaryOperation contributes its operator
+        rep.undecided(oid, 'pysym', f'sufficient condition not established ({v.detail[:200]}): the decision rests on C08.filter.path.* up to its depth', function=fn, clause=clause, soft=True)
+
     fn2 = f'{PJ}:PlanJoinTablesQuery.check_query_conditions'
 
     def make_args2(ex):
-        selfo = SymObj(None, 'self', prov='param')
+        selfo = SymObj({PlanJoinTablesQuery}, 'self', prov='param')
         selfo.known_not_none = True
         ctx = {}
         selfo.fields['query_context'] = ex.param_container(ctx)
-        selfo.fields['check_node_condition'] = Stub(lambda ex_, a, k: None, 'check_node_condition')
-        opn = mk_str('visited_op')
-        n1 = SymObj({BinaryOperation}, 'bin', prov='param')
-        n1.known_not_none = True
-        from mindsdb_sql.parser.ast import Constant
-        n1.fields.update(op=opn, args=ex.param_container([SymObj({Identifier}, 'x', prov='param'), SymObj({Constant}, 'y', prov='param')]))
-        n2 = SymObj({BetweenOperation}, 'btw', prov='param')
-        n2.known_not_none = True
-        n3 = SymObj({Identifier}, 'ident', prov='param')
-        n3.known_not_none = True
+        seen = []
+        selfo.fields['check_node_condition'] = Stub(lambda ex_, a, k: seen.append(a[0]), 'check_node_condition')
+
+        def leafcmp(name):
+            n = SymObj({BinaryOperation}, name, prov='param')
+            n.known_not_none = True
+            n.fields.update(op=pysym.mk_str(f'{name}.op'), args=ex.param_container([SymObj({Identifier}, f'{name}.col', prov='param'), SymObj({Constant}, f'{name}.const', prov='param')]), alias=None, parentheses=False)
+            return n
+
+        def node(K, name, **fields):
+            n = SymObj({K}, name, prov='param')
+            n.known_not_none = True
+            n.fields.update(alias=None, parentheses=False, **fields)
+            return n
+        top1, top2, under_or1, under_or2, under_not, under_fn, under_and_under_or = (leafcmp(x) for x in ('top1', 'top2', 'under_or1', 'under_or2', 'under_not', 'under_fn', 'under_and_under_or'))
+        btw = node(BetweenOperation, 'top_between', args=ex.param_container([SymObj({Identifier}, 'b.col', prov='param'), SymObj({Constant}, 'lo', prov='param'), SymObj({Constant}, 'hi', prov='param')]))
+        grp = node(BinaryOperation, 'and_under_or', op='and', args=ex.param_container([under_and_under_or, under_or2]))
+        orn = node(BinaryOperation, 'or', op='or', args=ex.param_container([under_or1, grp]))
+        notn = node(UnaryOperation, 'not', op='not', args=ex.param_container([under_not]))
+        fnn = node(Function, 'function', op='coalesce', args=ex.param_container([under_fn, SymObj({Constant}, 'true', prov='param')]), distinct=False, from_arg=None, namespace=None)
+        a3 = node(BinaryOperation, 'and3', op='and', args=ex.param_container([fnn, btw]))
+        a2 = node(BinaryOperation, 'and2', op='and', args=ex.param_container([notn, a3]))
+        a1 = node(BinaryOperation, 'and1', op='and', args=ex.param_container([orn, a2]))
+        a0 = node(BinaryOperation, 'and0', op='AND', args=ex.param_container([top2, a1]))
+        where = node(BinaryOperation, 'where', op='and', args=ex.param_container([top1, a0]))
         q = SymObj(None, 'query', prov='param')
         q.known_not_none = True
-        top = SymObj({BinaryOperation}, 'where', prov='param')
-        top.known_not_none = True
-        top.fields.update(op='and', args=ex.param_container([n1, n2]))
-        q.fields['where'] = top
-        n2.fields.update(args=ex.param_container([n3, SymObj({Constant}, 'lo', prov='param'), SymObj({Constant}, 'hi', prov='param')]))
-        ex.recursion_ok['check_query_conditions.'] = 6
+        q.fields['where'] = where
+        every = [where, top1, a0, top2, a1, orn, under_or1, grp, under_and_under_or, under_or2, a2, notn, under_not, a3, fnn, under_fn, btw]
 
         def traversal(ex_, a, k, node_=None):
-            cb = a[1]
-            for n in (top, n3, n1, n2):
-                ex_.call(cb, [n], {})
+            for n in every:
+                ex_.call(a[1], [n], {})
             return None
         ex.stubs[('mindsdb_sql.planner.utils', 'query_traversal')] = traversal
-        ex.path_state.update(ctx=ctx, opn=opn)
+        ex.recursion_ok['check_query_conditions.'] = 12
+        for nm in ('top1', 'top2'):
+            pass
+        ex.path_state.update(seen=seen, conj={id(top1): 'top1', id(top2): 'top2', id(btw): 'top_between'},
+                             nonconj={id(under_or1): 'under_or1', id(under_or2): 'under_or2', id(under_not): 'under_not', id(under_fn): 'under_fn', id(under_and_under_or): 'under_and_under_or'},
+                             leaf_ops=[top1.fields['op'], top2.fields['op']])
         return [selfo, q], {}
 
     def post2(ex, o):
         if o.kind != 'return':
             return f'raises {getattr(o.value, "__name__", o.value)}'
-        ops = o.state['ctx'].get('binary_ops')
-        if not isinstance(ops, list) or not any(x is o.state['opn'] or (isinstance(x, SymVal) and x == o.state['opn']) for x in ops):
-            return f'the operator of a visited BinaryOperation is not recorded (binary_ops = {ops})'
+        st = o.state
+        bad = [st['nonconj'][id(n)] for n in st['seen'] if id(n) in st['nonconj']]
+        if bad:
+            return f'comparisons that are not top-level conjuncts are collected as table conditions: {sorted(set(bad))}'
         return None
-    oid2 = 'C08.filter.or-guard.recorded'
-    clause2 = 'ensures query_context.binary_ops contains node.op of every BinaryOperation the walker passes to the callback'
     try:
         v2 = pysym.verify(PJ, 'PlanJoinTablesQuery.check_query_conditions', make_args2, post2)
         status, detail, secs = v2.status, v2.detail, v2.seconds
     except Exception as e:
         status, detail, secs = UNDECIDED, f'{type(e).__name__}: {e}', None
+    oid2 = 'C08.filter.conjuncts'
+    clause2 = 'ensures check_node_condition is only ever given nodes reached from query.where through AND nodes (a WHERE with comparisons at the top, under OR, under an AND group under OR, under NOT and inside a function call; operators of the leaves symbolic)'
     if status == PROVED:
         rep.proved(oid2, 'pysym', detail, function=fn2, clause=clause2, seconds=secs)
     else:
-        rep.undecided(oid2, 'pysym', f'sufficient condition no longer established ({detail[:160]})', function=fn2, clause=clause2)
+        rep.undecided(oid2, 'pysym', f'sufficient condition not established ({detail[:200]}): the decision rests on C08.filter.path.* up to its depth', function=fn2, clause=clause2, soft=True)
 
 
 # ------------------------------------------------------------------ systematic boolean paths above the pushed comparison (bounded by depth)
@@ -522,7 +536,7 @@ def check(rep, tier):
     rep.trust('pysym executor')
     limit_obligations(rep)
     context_obligations(rep)
-    or_guard_obligations(rep)
+    conjunct_obligations(rep)
     semijoin_obligations(rep)
     outer_obligation(rep)
     bounded(rep, tier)
